@@ -389,7 +389,24 @@ func (ex *Exec) externalCall(fr *Frame, callee *ssa.Function, args []Val, st *St
 	}); ok {
 		return r, ncur
 	}
-	return ex.externalCallBase(fr, callee, args, st, cur, mkRes, in, cc)
+	res, ncur := ex.externalCallBase(fr, callee, args, st, cur, mkRes, in, cc)
+	if full == "fmt.Sprintf" && len(cc.Args) >= 2 && res.Tm != nil {
+		// Sprintf on a constant template that is one escape sequence: the structure of the result is known
+		if text, ok := ex.constString(cc.Args[0]); ok {
+			if sh := parseSeqShape(text); sh.kind != 0 {
+				if va, ok := ex.variadicArgs(fr, cc.Args[1]); ok && len(va) == sh.nargs {
+					var ts []*smt.Term
+					for _, a := range va {
+						ts = append(ts, a.Tm)
+					}
+					for _, f := range ex.W.seqFacts(res.Tm, sh, ts) {
+						ex.assume(f)
+					}
+				}
+			}
+		}
+	}
+	return res, ncur
 }
 
 // externFuncCall applies an `extern func` declaration (the assumed contract of a function or interface method
@@ -480,6 +497,11 @@ func (ex *Exec) externFuncCall(fr *Frame, full string, args []Val, st *State, cu
 		}
 		for _, g := range gsets {
 			st.heap[g.k.Name] = c.Store(ex.heapGet(st, g.k), g.ref, g.val)
+		}
+		// logs name: expr -- the call is recorded in a ghost log
+		for _, lc := range fc.Logs {
+			v := envPre.eval(lc.E)
+			ex.logAppend(st, lc.Name, ex.box(v, st))
 		}
 		res, cur2 := base(cur)
 		cur = cur2
